@@ -44,6 +44,8 @@ class ExitGen:
             opts.append('broken')
         if ctx['defeat']:
             opts += [o for o in ('defeat', 'dcall') if o in allow]
+            if 'dcall' in allow:
+                opts.append('dexpr')
         if not opts:
             opts = ['ret']
         k = r.choice(opts)
@@ -57,6 +59,16 @@ class ExitGen:
         if k == 'win': return ExprStmt(Call('all_is_win', []))
         if k == 'broken': return ExprStmt(Call('all_is_broken', []))
         if k == 'defeat': return ExprStmt(Call('!is_defeat', []))
+        if k == 'dexpr':
+            # a defeat call nested in an expression (not a statement-level call)
+            call = Call(ctx['dvfunc'], [X])
+            c = self.r.random()
+            if c < 0.4 and ctx['ret'] != EMPTY:
+                return Ret(Bin('+', call, Lit(INT, 1)) if self.r.random() < 0.5 else call)
+            if c < 0.7:
+                self.uid += 1
+                return Decl(f'dx{self.uid}', INT, call)
+            return If(Bin('>', call, Lit(INT, 4)), [self.mark()])
         return ExprStmt(Call(ctx['dfunc'], [X]))
 
     def infinite_loop(self, d, ctx):
@@ -120,6 +132,9 @@ class ExitGen:
                 out.append(self.exit_stmt(ctx))
                 if r.random() < 0.7:
                     out.append(self.mark())        # statically unreachable statement
+            elif c < 0.965:
+                # user-defined overloads of the terminal builtins return normally
+                out.append(ExprStmt(Call(self.r.choice(ctx['fake_terminals']), [Lit(STRING, b'w')])))
             else:
                 out.append(OpAssign(X, '+', Lit(INT, 1)))
         return out
@@ -129,7 +144,11 @@ class ExitGen:
         flavor = r.choice(['', '', '@', '@', '!'])
         ret = r.choice([EMPTY, INT, INT])
         d1 = Func('!dz', [('k', INT, False)], EMPTY, [ExprStmt(Call('!truth_is_defeat', [Bin('==', Bin('%', Var('k', INT), Lit(INT, 2, keep=True)), Lit(INT, 1))]))])
-        ctx = dict(loop=False, ret=ret, you=flavor == '@', defeat=flavor == '!', dfunc=d1)
+        dv = Func('!dv', [('k', INT, False)], INT, [If(Bin('==', Bin('%', Var('k', INT), Lit(INT, 3, keep=True)), Lit(INT, 1)), [ExprStmt(Call('!is_defeat', []))]),
+                                                      Ret(Bin('+', Var('k', INT), Lit(INT, 1)))])
+        fakes = [Func('all_is_broken', [('why', STRING, False)], EMPTY, [ExprStmt(Call('write', [Lit(BYTE, ord('~'))]))]),
+                 Func('all_is_win', [('why', STRING, False)], EMPTY, [ExprStmt(Call('write', [Lit(BYTE, ord('^'))]))])]
+        ctx = dict(loop=False, ret=ret, you=flavor == '@', defeat=flavor == '!', dfunc=d1, dvfunc=dv, fake_terminals=fakes)
         f = Func(flavor + 'ft', [('x', INT, False)], ret)
         body = self.stmts(r.randint(2, 5), 3, ctx)
         tail = r.random()
@@ -147,5 +166,5 @@ class ExitGen:
             inner = [Assign(FUEL, Lit(INT, 6)), Try([ExprStmt(Call('write', [Lit(BYTE, ord('['))])), use, ExprStmt(Call('write', [Lit(BYTE, ord(']'))]))],
                                                    r.choice(['undo', 'stop']), [ExprStmt(Call('write', [Lit(BYTE, ord('#'))]))])]
         main = Func('@is_you', [('a', INT, False)], EMPTY, inner + [ExprStmt(Call('writeln', [FUEL]))])
-        prog = Program([Decl('fuel', INT, Lit(INT, 6, keep=True))], [main, f, nxt, d1])
+        prog = Program([Decl('fuel', INT, Lit(INT, 6, keep=True))], [main, f, nxt, d1, dv] + fakes)
         return prog, flavor, ret
